@@ -46,6 +46,7 @@ THEOREMS = [
     "NfcVerif.C05.dlc_window",
     "NfcVerif.C05.dlc_seq_consistent",
     "NfcVerif.C05.dlc_emsgsize",
+    "NfcVerif.C05.dlc_close_sends_disc",
     "NfcVerif.C05.dlc_collect_covered",
     "NfcVerif.C05.dlc_no_stuck",
     "NfcVerif.C05.dlc_wakeup_rechecks",
@@ -56,7 +57,7 @@ THEOREMS_SAP = [
     "NfcVerif.C05.client_stream_disciplined",
     "NfcVerif.C05.net_route_reaches_connection",
     "NfcVerif.C05.net_early_data_counterexample",
-    "NfcVerif.C05.net_half_open_counterexample",
+    "NfcVerif.C05.net_close_unread_repaired",
 ]
 
 OTHER = {"A": "B", "B": "A"}
@@ -136,10 +137,10 @@ class Walk:
             self.fail("dlc-unexpected-exception", "%s raised %r outside a socket call" % (line, e))
             self.dead = True
             return res
+        self.lines.append(line)
         if pre is not None and res == "done" and pre[0] == "ESTABLISHED" and pre[1] > 0:
             self.fail(KNOWN_CLOSE, "close() of an established socket with %d unread PDUs in its receive queue took one of them "
                       "for the DM: it returned at once, DISC was never sent and the peer stays ESTABLISHED" % pre[1])
-        self.lines.append(line)
         self.real.append(res + " | " + p.digest())
         self.judge(line, res, before)
         if p.link_down:
